@@ -65,7 +65,7 @@ def _resolve(v):
     return v
 
 
-def build_precond(model, cfg, dp_group, mp_group):
+def build_precond(model, cfg, dp_group, mp_group, pp_group=None):
     from kfac.gpt_neox.preconditioner import GPTNeoXKFACPreconditioner
     kw = {}
     for k in ('factor_update_steps', 'inv_update_steps', 'damping', 'factor_decay', 'kl_clip', 'lr', 'accumulation_steps',
@@ -81,7 +81,7 @@ def build_precond(model, cfg, dp_group, mp_group):
     with warnings.catch_warnings():
         warnings.simplefilter('ignore')
         return GPTNeoXKFACPreconditioner(model, data_parallel_group=dp_group, model_parallel_group=mp_group,
-                                         pipeline_parallel_group=None, **kw)
+                                         pipeline_parallel_group=pp_group, **kw)
 
 
 def rank_body(cfg, history, observe=None):
@@ -105,6 +105,13 @@ def rank_body(cfg, history, observe=None):
             g = dist.new_group(ranks)
             if rank in ranks:
                 mp_group = g
+        pp_group = None
+        if cfg.get('explicit_pipe_group'):
+            # the pipe-axis group (ranks sharing the data and model coordinates), as GPT-NeoX passes it; NOT the stage peers
+            for ranks in topo.get_axis_comm_lists('pipe'):
+                g = dist.new_group(ranks)
+                if rank in ranks:
+                    pp_group = g
         fw = full_weights(cfg)
         mods = []
         for li, (kind, nin, nout, hb) in enumerate(cfg['layers']):
@@ -124,8 +131,9 @@ def rank_body(cfg, history, observe=None):
             mods.append(m)
         # layers of the stage: all layers live on every stage here (each stage has its own copy; P > 1 only multiplies stages)
         model = PipelineModule(layers=mods, topology=topo)
-        pc = build_precond(model, cfg, dp_group, mp_group)
+        pc = build_precond(model, cfg, dp_group, mp_group, pp_group)
         ckpts = []
+        snaps = []
         obs = []
         step = 0
         for ev, e in enumerate(history):
@@ -157,20 +165,30 @@ def rank_body(cfg, history, observe=None):
                 obs.append({'ev': ev, 'kind': 'state_dict', 'sd': copy.deepcopy(sd)})
             elif e[0] == 'save':
                 ckpts.append(copy.deepcopy(pc.state_dict()))
+                snaps.append(copy.deepcopy(ckpts[-1]))
                 obs.append({'ev': ev, 'kind': 'save', 'sd': ckpts[-1]})
             elif e[0] == 'load':
                 for m in model.modules():
                     m._forward_pre_hooks.clear(); m._backward_hooks.clear()
-                pc = build_precond(model, cfg, dp_group, mp_group)
+                pc = build_precond(model, cfg, dp_group, mp_group, pp_group)
                 from harness import simdist
                 mark = sum(1 for x in simdist._WORLD.log if x[0] == rank)      # collectives of the constructor end here
                 pc.load_state_dict(copy.deepcopy(ckpts[e[1]]), compute_inverses=bool(e[2]))
                 obs.append({'ev': ev, 'kind': 'load', 'log_mark': mark})
+            elif e[0] == 'ckpt_check':
+                def same(a, b):
+                    if isinstance(a, dict):
+                        return isinstance(b, dict) and a.keys() == b.keys() and all(same(a[k_], b[k_]) for k_ in a)
+                    if torch.is_tensor(a):
+                        return torch.is_tensor(b) and a.dtype == b.dtype and torch.equal(a, b)
+                    return a == b
+                obs.append({'ev': ev, 'kind': 'ckpt_check', 'unchanged': same(ckpts[e[1]], snaps[e[1]])})
             elif e[0] == 'load_same':
                 # roll back: load an earlier state into the SAME (already used) preconditioner; the data stream follows the restored step count
                 from harness import simdist
                 mark = sum(1 for x in simdist._WORLD.log if x[0] == rank)
-                pc.load_state_dict(copy.deepcopy(ckpts[e[1]]), compute_inverses=bool(e[2]))
+                # e[3] = 1: the state object itself is handed over (no copy): it must still be the saved state afterwards ('ckpt_check')
+                pc.load_state_dict(ckpts[e[1]] if len(e) > 3 and e[3] else copy.deepcopy(ckpts[e[1]]), compute_inverses=bool(e[2]))
                 step = pc.steps
                 obs.append({'ev': ev, 'kind': 'load', 'log_mark': mark})
             if observe is not None:
